@@ -10,20 +10,23 @@ import MbVerif.Proofs.ReachMain
 namespace Mb
 variable {σ : Type} (ρ : Oracle σ)
 
-structure Walk (R : Fw σ → Fw σ → Prop) : Prop where
+/-- the part of a walker that concerns transitions only (no accounting updates) -/
+structure WalkCore (R : Fw σ → Fw σ → Prop) : Prop where
   refl : ∀ s, R s s
   trans : ∀ {s t u}, R s t → R t u → R s u
   transition : ∀ (j : Nat) (ev : Event) (s : Fw σ), R s (transition ρ FUEL j ev s).1
   decrement : ∀ (j : Nat) (s : Fw σ), notEnded s j = true → R s (decrementLimit ρ j s)
+  fault : ∀ (s : Fw σ) (f : Fault), R s (s.withFault f)
+  signal : ∀ (s : Fw σ) (p : Option SignalTarget), R s { s with signalPending := p }
+
+structure Walk (R : Fw σ → Fw σ → Prop) : Prop extends WalkCore ρ R where
   setG : ∀ (s : Fw σ) (g' : Globals), R s { s with g := g' }
   acct : ∀ (s : Fw σ) (j : Nat) (f : Runtime → Runtime),
     (∀ r, f r = { r with acct := (f r).acct }) → R s (s.modRt j f)
-  fault : ∀ (s : Fw σ) (f : Fault), R s (s.withFault f)
-  signal : ∀ (s : Fw σ) (p : Option SignalTarget), R s { s with signalPending := p }
   callStart : ∀ (s : Fw σ) (t : Int), R s (s.callStart t)
 
-namespace Walk
-variable {ρ} {R : Fw σ → Fw σ → Prop} (W : Walk ρ R)
+namespace WalkCore
+variable {ρ} {R : Fw σ → Fw σ → Prop} (W : WalkCore ρ R)
 include W
 
 theorem foldl {α : Type} (f : Fw σ → α → Fw σ) (hf : ∀ s a, R s (f s a)) (l : List α) (s : Fw σ) :
@@ -36,27 +39,6 @@ theorem transitionAll (ev : Event) (s : Fw σ) : R s (transitionAll ρ ev s) := 
   unfold Mb.transitionAll
   exact W.foldl _ (fun s mi => W.transition mi ev s) _ _
 
-theorem blockingEndAcct (s : Fw σ) (mi blocked : Nat) :
-    R s (if blocked ≠ 0 then
-        match s.rt[mi]? with
-        | none => s.withFault .oob
-        | some r =>
-          (if r.acct.blockingDur + blocked > durMax then s.withFault .durOverflow else s).modRt mi
-            (fun r => { r with acct := { r.acct with blockingDur := r.acct.blockingDur + blocked } })
-      else s) := by
-  by_cases hb : blocked ≠ 0
-  · rw [if_pos hb]
-    cases hr : s.rt[mi]? with
-    | none => exact W.fault _ _
-    | some r =>
-      simp only []
-      refine W.trans ?_ (W.acct _ mi
-        (fun r => { r with acct := { r.acct with blockingDur := r.acct.blockingDur + blocked } }) (fun _ => rfl))
-      split
-      · exact W.fault _ _
-      · exact W.refl _
-  · rw [if_neg hb]; exact W.refl _
-
 theorem transDec (mi : Nat) (ev : Event) (s : Fw σ) (c : Fw σ × Bool → Bool)
     (hc : ∀ p, c p = true → notEnded p.1 mi = true) :
     R s (if c (Mb.transition ρ FUEL mi ev s) = true then decrementLimit ρ mi (Mb.transition ρ FUEL mi ev s).1
@@ -65,67 +47,6 @@ theorem transDec (mi : Nat) (ev : Event) (s : Fw σ) (c : Fw σ × Bool → Bool
   split
   · next hcond => exact W.trans h (W.decrement mi _ (hc _ hcond))
   · exact h
-
-theorem processEvent (e : TEvent) (s : Fw σ) : R s (processEvent ρ e s) := by
-  unfold Mb.processEvent
-  cases e with
-  | normalRecv => exact W.transitionAll _ s
-  | paddingRecv => exact W.transitionAll _ s
-  | tunnelRecv => exact W.transitionAll _ s
-  | tunnelSent => exact W.transitionAll _ s
-  | normalSent =>
-    simp only []
-    refine W.trans (W.setG s { s.g with normalSent := s.g.normalSent + 1 }) (W.foldl _ (fun s mi => ?_) _ _)
-    exact W.trans (W.acct s mi
-      (fun r => { r with acct := { r.acct with normalSent := r.acct.normalSent + 1 } }) (fun _ => rfl))
-      (W.transition mi _ _)
-  | paddingSent mi =>
-    simp only []
-    refine W.trans (W.setG s { s.g with paddingSent := s.g.paddingSent + 1 }) ?_
-    split
-    · exact W.refl _
-    · refine W.trans (W.acct _ mi
-        (fun r => { r with acct := { r.acct with paddingSent := r.acct.paddingSent + 1 } }) (fun _ => rfl)) ?_
-      exact W.transDec mi .paddingSent _ (fun p => !p.2 && notEnded p.1 mi)
-        (fun p hp => by simp only [Bool.and_eq_true] at hp; exact hp.2)
-  | blockingBegin m =>
-    simp only []
-    have h1 : R s (if !s.g.blockingActive then
-        { s with g := { s.g with blockingActive := true, blockingStarted := s.g.now } } else s) := by
-      split
-      · exact W.setG s _
-      · exact W.refl s
-    refine W.trans h1 (W.foldl _ (fun s mi => ?_) _ _)
-    exact W.transDec mi .blockingBegin _ (fun p => !p.2 && notEnded p.1 mi && mi == m)
-      (fun p hp => by simp only [Bool.and_eq_true] at hp; exact hp.1.2)
-  | blockingEnd =>
-    simp only []
-    have h1 : R s (if s.g.blockingActive then
-        (let s' := if s.g.blockingDur + (if s.g.blockingActive then durSince s.g.now s.g.blockingStarted else 0) > durMax
-            then s.withFault .durOverflow else s
-         { s' with g := { s'.g with blockingDur := s'.g.blockingDur +
-            (if s.g.blockingActive then durSince s.g.now s.g.blockingStarted else 0), blockingActive := false } })
-        else s) := by
-      split
-      · simp only []
-        refine W.trans ?_ (W.setG _ _)
-        split
-        · exact W.fault _ _
-        · exact W.refl _
-      · exact W.refl s
-    refine W.trans h1 (W.foldl _ (fun s mi => ?_) _ _)
-    exact W.trans (W.blockingEndAcct s mi _) (W.transition mi _ _)
-  | timerBegin mi =>
-    simp only []
-    split
-    · exact W.refl _
-    · exact W.transDec mi .timerBegin _ (fun p => !p.2 && notEnded p.1 mi)
-        (fun p hp => by simp only [Bool.and_eq_true] at hp; exact hp.2)
-  | timerEnd mi =>
-    simp only []
-    split
-    · exact W.refl _
-    · exact W.transition mi _ _
 
 theorem signalFold (excluded : Option Nat) (s : Fw σ) (n : Nat) :
     R s ((List.range n).foldl (fun s mi =>
@@ -163,14 +84,102 @@ theorem signalRound (s : Fw σ) : R s (signalRound ρ s) := by
       | none => exact W.refl _
       | some _ => exact W.trans (W.signal s2 none) (W.transition _ _ _)
 
+end WalkCore
+
+namespace Walk
+variable {ρ} {R : Fw σ → Fw σ → Prop} (W : Walk ρ R)
+include W
+
+theorem blockingEndAcct (s : Fw σ) (mi blocked : Nat) :
+    R s (if blocked ≠ 0 then
+        match s.rt[mi]? with
+        | none => s.withFault .oob
+        | some r =>
+          (if r.acct.blockingDur + blocked > durMax then s.withFault .durOverflow else s).modRt mi
+            (fun r => { r with acct := { r.acct with blockingDur := r.acct.blockingDur + blocked } })
+      else s) := by
+  by_cases hb : blocked ≠ 0
+  · rw [if_pos hb]
+    cases hr : s.rt[mi]? with
+    | none => exact W.fault _ _
+    | some r =>
+      simp only []
+      refine W.trans ?_ (W.acct _ mi
+        (fun r => { r with acct := { r.acct with blockingDur := r.acct.blockingDur + blocked } }) (fun _ => rfl))
+      split
+      · exact W.fault _ _
+      · exact W.refl _
+  · rw [if_neg hb]; exact W.refl _
+
+theorem processEvent (e : TEvent) (s : Fw σ) : R s (processEvent ρ e s) := by
+  unfold Mb.processEvent
+  cases e with
+  | normalRecv => exact W.toWalkCore.transitionAll _ s
+  | paddingRecv => exact W.toWalkCore.transitionAll _ s
+  | tunnelRecv => exact W.toWalkCore.transitionAll _ s
+  | tunnelSent => exact W.toWalkCore.transitionAll _ s
+  | normalSent =>
+    simp only []
+    refine W.trans (W.setG s { s.g with normalSent := s.g.normalSent + 1 }) (W.toWalkCore.foldl _ (fun s mi => ?_) _ _)
+    exact W.trans (W.acct s mi
+      (fun r => { r with acct := { r.acct with normalSent := r.acct.normalSent + 1 } }) (fun _ => rfl))
+      (W.transition mi _ _)
+  | paddingSent mi =>
+    simp only []
+    refine W.trans (W.setG s { s.g with paddingSent := s.g.paddingSent + 1 }) ?_
+    split
+    · exact W.refl _
+    · refine W.trans (W.acct _ mi
+        (fun r => { r with acct := { r.acct with paddingSent := r.acct.paddingSent + 1 } }) (fun _ => rfl)) ?_
+      exact W.toWalkCore.transDec mi .paddingSent _ (fun p => !p.2 && notEnded p.1 mi)
+        (fun p hp => by simp only [Bool.and_eq_true] at hp; exact hp.2)
+  | blockingBegin m =>
+    simp only []
+    have h1 : R s (if !s.g.blockingActive then
+        { s with g := { s.g with blockingActive := true, blockingStarted := s.g.now } } else s) := by
+      split
+      · exact W.setG s _
+      · exact W.refl s
+    refine W.trans h1 (W.toWalkCore.foldl _ (fun s mi => ?_) _ _)
+    exact W.toWalkCore.transDec mi .blockingBegin _ (fun p => !p.2 && notEnded p.1 mi && mi == m)
+      (fun p hp => by simp only [Bool.and_eq_true] at hp; exact hp.1.2)
+  | blockingEnd =>
+    simp only []
+    have h1 : R s (if s.g.blockingActive then
+        (let s' := if s.g.blockingDur + (if s.g.blockingActive then durSince s.g.now s.g.blockingStarted else 0) > durMax
+            then s.withFault .durOverflow else s
+         { s' with g := { s'.g with blockingDur := s'.g.blockingDur +
+            (if s.g.blockingActive then durSince s.g.now s.g.blockingStarted else 0), blockingActive := false } })
+        else s) := by
+      split
+      · simp only []
+        refine W.trans ?_ (W.setG _ _)
+        split
+        · exact W.fault _ _
+        · exact W.refl _
+      · exact W.refl s
+    refine W.trans h1 (W.toWalkCore.foldl _ (fun s mi => ?_) _ _)
+    exact W.trans (W.blockingEndAcct s mi _) (W.transition mi _ _)
+  | timerBegin mi =>
+    simp only []
+    split
+    · exact W.refl _
+    · exact W.toWalkCore.transDec mi .timerBegin _ (fun p => !p.2 && notEnded p.1 mi)
+        (fun p hp => by simp only [Bool.and_eq_true] at hp; exact hp.2)
+  | timerEnd mi =>
+    simp only []
+    split
+    · exact W.refl _
+    · exact W.transition mi _ _
+
 theorem triggerEvents (es : List TEvent) (t : Int) (s : Fw σ) : R s (triggerEvents ρ es t s) := by
   unfold Mb.triggerEvents
   refine W.trans (W.callStart s t) ?_
-  exact W.trans (W.foldl _ (fun s e => W.processEvent e s) _ _) (W.signalRound _)
+  exact W.trans (W.toWalkCore.foldl _ (fun s e => W.processEvent e s) _ _) (W.toWalkCore.signalRound _)
 
 theorem runCalls (s : Fw σ) (h : List Call) : R s (runCalls ρ s h) := by
   unfold Mb.runCalls
-  exact W.foldl _ (fun s (c : Call) => W.triggerEvents c.1 c.2 s) _ _
+  exact W.toWalkCore.foldl _ (fun s (c : Call) => W.triggerEvents c.1 c.2 s) _ _
 
 end Walk
 
